@@ -59,7 +59,17 @@ type VerifC13Conc struct {
 	Rounds int `json:"rounds"`
 }
 
+// VerifC13HTTPGet is set by the driver's main package: a GET through the real handlers of internal/web.
+var VerifC13HTTPGet func(store *Store, dsm *DsManager, path, accept string) (int, []byte)
+
+type VerifC13Pub struct {
+	Name string   `json:"name"`
+	Exps []string `json:"exps"`
+}
+
 type VerifC13Case struct {
+	// datasets created after Dss, with publicNamespaces
+	Pub  []VerifC13Pub `json:"pub,omitempty"`
 	Dss  []string      `json:"dss"`
 	Ops  []VerifC13Op  `json:"ops"`
 	Conc *VerifC13Conc `json:"conc,omitempty"`
@@ -266,6 +276,11 @@ func VerifC13Run(c VerifC13Case, dir string) (obs VerifC13Obs) {
 			return VerifC13Obs{Outcome: "setup-error", Detail: err.Error()}
 		}
 	}
+	for _, p := range c.Pub {
+		if _, err := dsm.CreateDataset(p.Name, &CreateDatasetConfig{PublicNamespaces: p.Exps}); err != nil {
+			return VerifC13Obs{Outcome: "setup-error", Detail: err.Error()}
+		}
+	}
 	var handles []*Context
 	var ctxStores []*Store
 	pad := 0
@@ -360,6 +375,41 @@ func VerifC13Run(c VerifC13Case, dir string) (obs VerifC13Obs) {
 				o = VerifC13Out{K: "ctx", M: verifPairs(back.Namespaces)}
 			} else {
 				o = VerifC13Out{K: "err"}
+			}
+		case "jsonld":
+			// a page of the dataset rendered as JSON-LD by the real handler
+			code, body := VerifC13HTTPGet(s, dsm, "/datasets/"+op.Ds+"/entities", "application/ld+json")
+			if code != 200 {
+				o = VerifC13Out{K: "err", Msg: fmt.Sprintf("status %d: %.200s", code, body)}
+			} else {
+				o = VerifC13Out{K: "none"}
+			}
+		case "page":
+			// the @context a plain JSON page of the dataset carries
+			path := "/datasets/" + op.Ds + "/entities"
+			if op.Txn {
+				path = "/datasets/" + op.Ds + "/changes"
+			}
+			code, body := VerifC13HTTPGet(s, dsm, path, "")
+			var arr []map[string]interface{}
+			if code != 200 || json.Unmarshal(body, &arr) != nil || len(arr) == 0 || arr[0]["id"] != "@context" {
+				o = VerifC13Out{K: "err", Msg: fmt.Sprintf("status %d: %.200s", code, body)}
+			} else {
+				m := map[string]string{}
+				if ns, ok := arr[0]["namespaces"].(map[string]interface{}); ok {
+					for k, v := range ns {
+						m[k], _ = v.(string)
+					}
+				}
+				o = VerifC13Out{K: "ctx", M: verifPairs(m)}
+			}
+		case "namespaces":
+			code, body := VerifC13HTTPGet(s, dsm, "/namespaces", "")
+			m := map[string]string{}
+			if code != 200 || json.Unmarshal(body, &m) != nil {
+				o = VerifC13Out{K: "err", Msg: fmt.Sprintf("status %d: %.200s", code, body)}
+			} else {
+				o = VerifC13Out{K: "ctx", M: verifPairs(m)}
 			}
 		case "batch":
 			ents := verifC13Ents(op.Ents, &pad)
